@@ -82,7 +82,7 @@ fn shadow_of(w: &World, c: usize) -> BTreeMap<(usize, EventId), Shadow> {
     m
 }
 
-fn trial(prop: &str, i: u64, rng: &mut Rng, out: &mut Outcome, dir: &std::path::Path) {
+pub fn trial(prop: &str, i: u64, rng: &mut Rng, out: &mut Outcome, dir: &std::path::Path) {
     let backend = if i % 8 == 0 { BackendKind::Sqlite } else { BackendKind::Memory };
     let mut a: Arena = arena(rng, dir, &format!("c04-{i}"), backend, VictimState::Idle);
     out.evaluations += 1;
